@@ -161,6 +161,17 @@ impl<'a> Gen<'a> {
         f
     }
 
+    /// parent flags of a map call: as in the documentation's own example they need not contain
+    /// PRESENT (a new table is made present by the mapper)
+    fn map_parent_flags(&mut self) -> u64 {
+        let f = self.parent_flags();
+        if self.rng.chance(15) {
+            f & !1
+        } else {
+            f
+        }
+    }
+
     fn parent_flags(&mut self) -> u64 {
         let mut f = rand_flags(self.rng, self.flag_density);
         if self.rec.is_some() {
@@ -196,6 +207,10 @@ pub fn gen_replay(seed: u64, focus_arg: &str) -> Replay {
             View::Offset { phys_offset: lo + (rng.below(room >> 12) << 12) }
         }
         1 => View::Mapped,
+        // one or two recursive runs in a hundred use a kernel-half recursive index (where kernels keep
+        // it; every table access then costs two signals, a run about 0.3 s);
+        // its table accesses are steered to the frames one instruction at a time (usim::world::redirect)
+        _ if rng.chance(if focus == "C20" { 1 } else { 2 }) => View::Recursive { r: *rng.pick(&[511u64, 510, 256, 257, 384, 509]) as u16 + 0 },
         _ => View::Recursive { r: rng.range(1, 160) as u16 },
     };
     let rec = if let View::Recursive { r } = &view { Some(*r) } else { None };
@@ -271,8 +286,8 @@ pub fn gen_replay(seed: u64, focus_arg: &str) -> Replay {
             0 | 1 => {
                 let page = g.page(size);
                 let frame = g.frame(size, false);
-                let flags = g.leaf_flags(size, op == 1);
-                let pflags = if op == 1 { Some(format!("{:#x}", g.parent_flags())) } else { None };
+                let flags = g.leaf_flags(size, true);
+                let pflags = if op == 1 { Some(format!("{:#x}", g.map_parent_flags())) } else { None };
                 let fail = g.fail();
                 g.frames.push((frame, size));
                 Step::Map { size, page, frame, flags, pflags, fail }
